@@ -7,7 +7,7 @@
    earlier versions of the code (kept for the refuted statements).  Single promise: Join is not
    in this model. *)
 From CV Require Import Promise.Promise Promise.PromiseProofs Promise.PromiseStepProofs Promise.MuProofs
-  Promise.PromiseTheorems Promise.PromiseLive Promise.PromiseProxies Promise.PromiseJoin Promise.PromiseJoinProofs Promise.PromiseJoinThms Promise.PromiseJoinInv Promise.PromiseJoinRefs Promise.PromiseJoinForest Promise.PromiseJoinDest Promise.PromiseJoinChain.
+  Promise.PromiseTheorems Promise.PromiseLive Promise.PromiseProxies Promise.PromiseJoin Promise.PromiseJoinProofs Promise.PromiseJoinThms Promise.PromiseJoinInv Promise.PromiseJoinRefs Promise.PromiseJoinForest Promise.PromiseJoinDest Promise.PromiseJoinChain Promise.PromiseJoinLive Promise.PromiseJoinStuck Promise.PromiseJoinZero.
 Open Scope Z_scope.
 
 (* the promise resolves at most once; Fulfill/Reject after the first one panics (OPanic), the
@@ -288,3 +288,44 @@ Theorem C11_join_chain_release : forall v np ops c,
     p_crefs (getp c k) = pm_unreleased (proms c) + jcount owes (jthreads c).
 Proof. exact join_chain_release. Qed.
 Print Assumptions C11_join_chain_release.
+
+(* ---- round 7: the channel part of no_stuck and waiters_released on joined chains *)
+
+(* Preconditions: the code as it is (jv_close_joined, jv_alloc_table) and the precondition of Join (join_ordered).
+   If no thread can take a step then (1) the application holds a call inside a PipelineCaller, or (2) some
+   ClientPromise.Fulfill / Client.Release waits for the calls of a proxy hook to drain (PARTIAL: this alternative is
+   excluded for a single promise by C11_no_stuck, not yet on chains), or (3) every unfinished operation waits, directly
+   or through Join threads, for a promise that nobody has asked to resolve. *)
+Theorem C11_join_no_stuck_partial : forall v np ops c,
+  jv_close_joined v = true -> jv_alloc_table v = true -> join_ordered ops -> jreach v np ops c ->
+  (forall t, jenabled v c t = false) ->
+  (exists t th, nth_error (jthreads c) t = Some th /\ j_pc th = QInCaller /\
+                jop_gated (j_op th) = true /\ mem_nat t (jgates c) = false) \/
+  (exists t th, nth_error (jthreads c) t = Some th /\ (j_pc th = QFulWait \/ j_pc th = QRelWait)) \/
+  (forall t th, nth_error (jthreads c) t = Some th -> j_pc th <> QDone ->
+                exists r, p_caller (getp c r) = true).
+Proof. exact join_no_stuck_partial. Qed.
+Print Assumptions C11_join_no_stuck_partial.
+
+(* waiters_released on chains: at rest, no call held by the application, no hook wait, every promise asked to resolve
+   or joined => every operation (waiters, ReleaseClients, Client(), pipelined calls, Joins) has finished *)
+Theorem C11_join_waiters_released_partial : forall v np ops c,
+  jv_close_joined v = true -> jv_alloc_table v = true -> join_ordered ops -> jreach v np ops c ->
+  (forall t, jenabled v c t = false) ->
+  (forall t th, nth_error (jthreads c) t = Some th -> j_pc th = QInCaller ->
+                jop_gated (j_op th) = true -> mem_nat t (jgates c) = true) ->
+  (forall t th, nth_error (jthreads c) t = Some th -> j_pc th <> QFulWait /\ j_pc th <> QRelWait) ->
+  (forall k, p_caller (getp c k) = false) ->
+  forall t th, nth_error (jthreads c) t = Some th -> j_pc th = QDone.
+Proof. exact join_waiters_released_partial. Qed.
+Print Assumptions C11_join_waiters_released_partial.
+
+(* relation between the two models, PARTIAL: with zero Join operations the Join-specific state of PromiseJoin.v is
+   inert (no promise pending join or joined, no mu held at a section boundary, no thread in a Join section): each
+   promise runs the single-promise protocol on its own fields.  A full simulation on the projected observables is not
+   proved; the two models are additionally tied through the implementation (seq vs join 1 / par 1 histories). *)
+Theorem C11_join_zero_joins_inert_partial : forall v np ops c, Forall no_join_op ops -> jreach v np ops c ->
+  (forall k, p_next (getp c k) = None /\ p_joined (getp c k) = CNil /\ p_mu (getp c k) = None) /\
+  (forall t th, nth_error (jthreads c) t = Some th -> jjoin_pc (j_pc th) = false).
+Proof. exact join_zero_joins_inert. Qed.
+Print Assumptions C11_join_zero_joins_inert_partial.
